@@ -106,6 +106,17 @@ def graph_body(n, e0, e1, e2, e3, d01, d02, d03, d12, d13, d23, cls):
     exp_bonds = {frozenset((i, j)) for i in range(n) for j in range(i + 1, n) if m[i, j]}
     if set(g.bonds) != exp_bonds or list(g.atoms) != list(range(n)) or tuple(g.atom_types) != tuple(els):
         return f"graph bonds {set(g.bonds)} != strict upper triangle {exp_bonds}"
+    # the same Geometry object, edited in place between two calls (rigid shift, then a stretch by 3), against a fresh object with the same data
+    for step, edit in (("shifted", lambda c: c.__iadd__(np.array([5.0, -3.0, 2.0]))), ("stretched x3", lambda c: c.__imul__(3.0))):
+        edit(geo.coords)
+        try:
+            g_same = MolGraph.from_geometry(geo)
+            g_fresh = MolGraph.from_geometry(Geometry(list(els), np.array(geo.coords, dtype=float).copy()))
+        except Exception as e:
+            return f"from_geometry after in-place edit ({step}) raised {type(e).__name__}: {e}"
+        if set(g_same.bonds) != set(g_fresh.bonds):
+            return (f"Geometry edited in place ({step}) and converted again: bonds {sorted(map(sorted, g_same.bonds))}, a fresh Geometry with the same "
+                    f"coordinates gives {sorted(map(sorted, g_fresh.bonds))}")
     return None
 
 
